@@ -6,6 +6,7 @@ R02f removal/insertion/replacement costs are positive.
 """
 import ast
 
+from ..astx import code
 from ..astx import self_attr, walk_no_nested, dotted, call_name, parent, dominating_conditions, flatten_conditions, \
     func_params, terminates, ancestors
 from ..core import norm, Inconclusive
@@ -441,13 +442,13 @@ def r02e(ctx):
         if eq is None:
             continue
         n += 1
-        txt = ast.unparse(eq.node)
+        txt = code(eq.node)
         # plus the same-class helpers __eq__ calls on either operand (`self._stripped_text()` / `other._stripped_text()`)
         for c_ in walk_no_nested(eq.node):
             if isinstance(c_, ast.Call) and isinstance(c_.func, ast.Attribute):
                 h_ = m.method(q, c_.func.attr)
                 if h_ is not None and h_.cls == eq.cls and h_.node is not eq.node:
-                    txt += "\n" + ast.unparse(h_.node)
+                    txt += "\n" + code(h_.node)
         if cname == "SequenceNode":
             comps = {"_children"}
         elif cname == "DataClassNode":
@@ -488,7 +489,7 @@ def r02l(ctx):
         if eq is None:
             continue
         n += 1
-        src = ast.unparse(eq.node)
+        src = code(eq.node)
         kind = "MappingNode" in src or "type(self)" in src or "__class__" in src or "container_type" in src
         short = q.rsplit(".", 1)[-1]
         if kind:
